@@ -73,6 +73,16 @@ func (o Opts) Options(ctx context.Context, target string) []gtree.Option {
 	if target != "" || o.PassEmptyTarget {
 		opts = append(opts, gtree.WithTargetDir(target))
 	}
+	if o.OptOrder > 0 && len(opts) > 1 {
+		// the caller may give the options in any order: rotate by OptOrder/2, and reverse when OptOrder is odd
+		r := (o.OptOrder / 2) % len(opts)
+		opts = append(append([]gtree.Option{}, opts[r:]...), opts[:r]...)
+		if o.OptOrder%2 == 1 {
+			for i, j := 0, len(opts)-1; i < j; i, j = i+1, j-1 {
+				opts[i], opts[j] = opts[j], opts[i]
+			}
+		}
+	}
 	if o.NilOpts {
 		with := []gtree.Option{nil}
 		for _, op := range opts {
@@ -94,6 +104,54 @@ func BuildRoot(rootName string, prog []AddStep) []*gtree.Node {
 		nodes = append(nodes, nodes[p].Add(s.N))
 	}
 	return nodes
+}
+
+// readVisit reads the six facts of a walker node in the order chosen by order: 0 = as the accessors are declared, k>0 = the
+// (k-1)-th permutation (Lehmer code) of {Name, Branch, Row, Level, Path, HasChild}. A consumer may read any fact first.
+func readVisit(wn *gtree.WalkerNode, order int) Visit {
+	var v Visit
+	idx := []int{0, 1, 2, 3, 4, 5}
+	if order > 0 {
+		code := (order - 1) % 720
+		pool := []int{0, 1, 2, 3, 4, 5}
+		idx = idx[:0]
+		for n := 6; n >= 1; n-- {
+			f := 1
+			for j := 2; j < n; j++ {
+				f *= j
+			}
+			k := code / f
+			code %= f
+			idx = append(idx, pool[k])
+			pool = append(pool[:k], pool[k+1:]...)
+		}
+	}
+	for _, i := range idx {
+		switch i {
+		case 0:
+			v.Name = wn.Name()
+		case 1:
+			v.Branch = wn.Branch()
+		case 2:
+			v.Row = wn.Row()
+		case 3:
+			v.Level = wn.Level()
+		case 4:
+			v.Path = wn.Path()
+		case 5:
+			v.HasChild = wn.HasChild()
+		}
+	}
+	return v
+}
+
+// unstable marks a visit whose facts read again later differ from what was read at the visit: the marked row matches no model.
+func unstable(first, later Visit) Visit {
+	if first == later {
+		return later
+	}
+	first.Row = fmt.Sprintf("%s\x00UNSTABLE: read again later the node says %+v", first.Row, later)
+	return first
 }
 
 var hookMu sync.Mutex
@@ -353,7 +411,7 @@ func (env *Env) run(c *Case) *Result {
 		if stopped {
 			res.VisitsAfter++
 		}
-		visits = append(visits, Visit{Name: wn.Name(), Branch: wn.Branch(), Row: wn.Row(), Level: wn.Level(), Path: wn.Path(), HasChild: wn.HasChild()})
+		visits = append(visits, readVisit(wn, c.FactOrder))
 		keptCb = append(keptCb, wn)
 		if c.Cancel.Kind == "atCallback" && idx >= c.Cancel.K {
 			cancel()
@@ -462,6 +520,7 @@ func (env *Env) run(c *Case) *Result {
 		}
 	}
 	var kept []*gtree.WalkerNode // nodes handed to the caller, read again after the walk has ended
+	var early []Visit            // with FactOrder: what the nodes said when they were yielded
 	call := func() (err error) {
 		var opts []gtree.Option
 		if c.Opts.EarlyOpts {
@@ -508,6 +567,10 @@ func (env *Env) run(c *Case) *Result {
 					runPreOp(po, nodes[0], base, env.Scratch)
 				}
 			}
+		}
+		if c.CopyRoot && node != nil && len(nodes) > 0 && node == nodes[0] {
+			cp := *node // a root handed over by value (func render(n gtree.Node) { ...(&n) })
+			node = &cp
 		}
 		alias := c.Entry == "alias" || c.Entry == "mdalias"
 		md := c.Entry == "md" || c.Entry == "mdalias"
@@ -559,6 +622,9 @@ func (env *Env) run(c *Case) *Result {
 					res.VisitsAfter++
 				}
 				kept = append(kept, wn) // the node is read after the loop: it must stay what it was when it was yielded
+				if c.FactOrder != 0 {
+					early = append(early, readVisit(wn, c.FactOrder))
+				}
 				if c.Nest > 0 && i == c.Nest-1 {
 					inner := seq
 					if c.Nest%2 == 0 {
@@ -580,8 +646,12 @@ func (env *Env) run(c *Case) *Result {
 				}
 				i++
 			}
-			for _, wn := range kept {
-				visits = append(visits, Visit{Name: wn.Name(), Branch: wn.Branch(), Row: wn.Row(), Level: wn.Level(), Path: wn.Path(), HasChild: wn.HasChild()})
+			for k, wn := range kept {
+				later := readVisit(wn, 0)
+				if k < len(early) {
+					later = unstable(early[k], later)
+				}
+				visits = append(visits, later)
 			}
 			if c.RangeTwice {
 				for _, e := range seq {
@@ -698,7 +768,11 @@ func (env *Env) run(c *Case) *Result {
 	if len(keptCb) == len(visits) && len(keptCb) > 0 && res.Hang == "" {
 		// what the callback saw must still be what the nodes say once the walk is over
 		for i, wn := range keptCb {
-			visits[i] = Visit{Name: wn.Name(), Branch: wn.Branch(), Row: wn.Row(), Level: wn.Level(), Path: wn.Path(), HasChild: wn.HasChild()}
+			later := readVisit(wn, 0)
+			if c.FactOrder != 0 {
+				later = unstable(visits[i], later)
+			}
+			visits[i] = later
 		}
 	}
 	res.Visits = visits
